@@ -10,9 +10,9 @@ cp $WT/_seed/meta.json $D/meta.agent.json 2>/dev/null
 cd $WT
 echo "--- tests with change:"; PYTHONPATH=$WT MPLBACKEND=Agg /venv/bin/python -m pytest -q -p no:cacheprovider tests 2>&1 | tail -1
 echo "--- demo with change:"; PYTHONPATH=$WT MPLBACKEND=Agg timeout 300 /venv/bin/python _seed/demo.py > /tmp/demo_with.out 2>&1; echo "exit=$? $(tail -1 /tmp/demo_with.out | cut -c1-150)"
-git stash -q
+git apply -R $D/patch.diff
 echo "--- demo without change:"; PYTHONPATH=$WT MPLBACKEND=Agg timeout 300 /venv/bin/python _seed/demo.py > /tmp/demo_wo.out 2>&1; echo "exit=$? $(tail -1 /tmp/demo_wo.out | cut -c1-150)"
-git stash pop -q
+git apply $D/patch.diff
 cd /verif
 git -C /repo apply $D/patch.diff || { echo "patch does not apply to /repo"; exit 1; }
 echo "--- our check ($PROP) with the change applied to /repo:"
